@@ -1,0 +1,113 @@
+// Copyright ©2024 The Gonum Authors. All rights reserved.
+// Use of this source code is governed by a BSD-style
+// license that can be found in the LICENSE file.
+
+//go:build verif
+
+package simple
+
+import (
+	"fmt"
+
+	"gonum.org/v1/gonum/graph"
+	"gonum.org/v1/gonum/graph/set/uid"
+)
+
+// This file holds structural invariant checks of the map-backed graph types.
+// It exists only with the verif build tag and is used by the runtime
+// monitors in /verif at quiescent points of mutation histories.
+
+type verifEdge interface {
+	From() graph.Node
+	To() graph.Node
+}
+
+func verifNodes(nodes map[int64]graph.Node, ids *uid.Set) error {
+	live := make(map[int64]bool, len(nodes))
+	for id, n := range nodes {
+		if n == nil {
+			return fmt.Errorf("nil node stored under ID %d", id)
+		}
+		if n.ID() != id {
+			return fmt.Errorf("node with ID %d stored under ID %d", n.ID(), id)
+		}
+		live[id] = true
+	}
+	return ids.VerifCheck(live, true)
+}
+
+// verifMirror checks that every entry a[u][v] has endpoints in nodes, that the
+// stored edge joins u and v, and that b[v][u] exists.
+func verifMirror[E verifEdge](what string, nodes map[int64]graph.Node, a, b map[int64]map[int64]E, directed, aIsFrom bool) error {
+	for u, m := range a {
+		if _, ok := nodes[u]; !ok {
+			return fmt.Errorf("%s has an entry for node %d which is not in the graph", what, u)
+		}
+		for v, e := range m {
+			if _, ok := nodes[v]; !ok {
+				return fmt.Errorf("%s[%d] has an entry for node %d which is not in the graph", what, u, v)
+			}
+			if u == v {
+				return fmt.Errorf("%s holds a self loop on %d", what, u)
+			}
+			f, t := e.From().ID(), e.To().ID()
+			if directed {
+				wf, wt := u, v
+				if !aIsFrom {
+					wf, wt = v, u
+				}
+				if f != wf || t != wt {
+					return fmt.Errorf("%s[%d][%d] holds edge %d->%d", what, u, v, f, t)
+				}
+			} else if !(f == u && t == v) && !(f == v && t == u) {
+				return fmt.Errorf("%s[%d][%d] holds edge %d-%d", what, u, v, f, t)
+			}
+			o, ok := b[v][u]
+			if !ok {
+				return fmt.Errorf("%s[%d][%d] has no mirror entry", what, u, v)
+			}
+			if o.From().ID() != f || o.To().ID() != t {
+				return fmt.Errorf("%s[%d][%d] and its mirror hold different edges", what, u, v)
+			}
+		}
+	}
+	return nil
+}
+
+// VerifInvariants checks the internal consistency of g.
+func (g *DirectedGraph) VerifInvariants() error {
+	if err := verifNodes(g.nodes, g.nodeIDs); err != nil {
+		return err
+	}
+	if err := verifMirror("from", g.nodes, g.from, g.to, true, true); err != nil {
+		return err
+	}
+	return verifMirror("to", g.nodes, g.to, g.from, true, false)
+}
+
+// VerifInvariants checks the internal consistency of g.
+func (g *WeightedDirectedGraph) VerifInvariants() error {
+	if err := verifNodes(g.nodes, g.nodeIDs); err != nil {
+		return err
+	}
+	if err := verifMirror("from", g.nodes, g.from, g.to, true, true); err != nil {
+		return err
+	}
+	return verifMirror("to", g.nodes, g.to, g.from, true, false)
+}
+
+// VerifInvariants checks the internal consistency of g.
+func (g *UndirectedGraph) VerifInvariants() error {
+	if err := verifNodes(g.nodes, g.nodeIDs); err != nil {
+		return err
+	}
+	return verifMirror("edges", g.nodes, g.edges, g.edges, false, true)
+}
+
+// VerifInvariants checks the internal consistency of g.
+func (g *WeightedUndirectedGraph) VerifInvariants() error {
+	if err := verifNodes(g.nodes, g.nodeIDs); err != nil {
+		return err
+	}
+	return verifMirror("edges", g.nodes, g.edges, g.edges, false, true)
+}
